@@ -138,16 +138,17 @@ def run(tier, mode):
             tag = {}
             # key by position: wrap elements through a parallel walk (filter passes elements, so use identity+counter)
             it = iter(marks)
-            got = lst.filter(lambda x: next(it), drop=drop)
+            # (the predicate answers by position, once per element: a filter that asks twice, or out of order, is caught -- possibly by running the iterator dry)
+            got = H.call(lambda: lst.filter(lambda x: next(it, False), drop=drop))
             sel_pos = [i for i, m_ in enumerate(marks) if m_]
             rem_pos = [i for i, m_ in enumerate(marks) if not m_] if drop else pos
-            ok = (len(got) == len(sel_pos) and all(g is elems[i] for g, i in zip(got, sel_pos))
+            ok = (not isinstance(got, H.Exn) and len(got) == len(sel_pos) and all(g is elems[i] for g, i in zip(got, sel_pos))
                   and len(lst) == len(rem_pos) and all(g is elems[i] for g, i in zip(lst, rem_pos))
                   and type(got) is type(lst))
             n_or += 1
             bump('filter')
             if not ok:
-                fail('filter', {'marks': marks, 'drop': drop, 'kind': kind}, [ids_of(got, elems), ids_of(lst, elems)], [sel_pos, rem_pos])
+                fail('filter', {'marks': marks, 'drop': drop, 'kind': kind}, got if isinstance(got, H.Exn) else [ids_of(got, elems), ids_of(lst, elems)], [sel_pos, rem_pos])
             if mode != 'search':
                 cases.append((H.req('filter', marks, drop), H.canon((sel_pos if ok else ['?'], rem_pos if ok else ['?'])),
                               {'fn': 'filter', 'marks': marks, 'drop': drop}))
